@@ -1,3 +1,4 @@
+pub mod c04;
 pub mod c14;
 pub mod c15;
 pub mod c16;
